@@ -2,9 +2,219 @@
 
 package config
 
+import (
+	"bytes"
+	"fmt"
+	"math"
+	"math/big"
+	"sort"
+	"strconv"
+	"strings"
+
+	"github.com/holoplot/go-evdev"
+	"github.com/pelletier/go-toml/v2"
+)
+
 type parseState struct{}
 
-func (p *parseState) line(toks []string) (string, bool) { return "bad-op", true }
+func optInt(p *int) string {
+	if p == nil {
+		return "-"
+	}
+	return strconv.Itoa(*p)
+}
+
+func optStr(p *string) string {
+	if p == nil {
+		return "~"
+	}
+	return enhex(*p)
+}
+
+func b01(b bool) string {
+	if b {
+		return "1"
+	}
+	return "0"
+}
+
+func bits(f float64) string { return strconv.FormatUint(math.Float64bits(f), 10) }
+
+// serialise the decoded structure as the `t.*` lines of the protocol (map entries sorted by key)
+func serialise(cfg *TOMLDeviceConfig) []string {
+	var out []string
+	out = append(out, fmt.Sprintf("t.begin %s %d %d %d %d %s %d %d %d %s %d %d %d %d %d %d %d %d",
+		enhex(cfg.CollisionMode), cfg.Identifier.Bus, cfg.Identifier.Vendor, cfg.Identifier.Product, cfg.Identifier.Version,
+		enhex(cfg.Identifier.Uniq), cfg.Defaults.Octave, cfg.Defaults.Semitone, cfg.Defaults.Channel, enhex(cfg.Defaults.Mapping),
+		cfg.Defaults.Velocity, cfg.OpenRGB.White, cfg.OpenRGB.Black, cfg.OpenRGB.C, cfg.OpenRGB.Unavailable, cfg.OpenRGB.Other,
+		cfg.OpenRGB.Active, cfg.OpenRGB.ActiveExternal))
+	if len(cfg.ExitSequence) > 0 {
+		l := "t.exit"
+		for _, k := range cfg.ExitSequence {
+			l += " " + enhex(k)
+		}
+		out = append(out, l)
+	}
+	var ks []string
+	for k := range cfg.ActionMapping {
+		ks = append(ks, k)
+	}
+	sort.Strings(ks)
+	for _, k := range ks {
+		out = append(out, fmt.Sprintf("t.action %s %s", enhex(k), enhex(cfg.ActionMapping[k])))
+	}
+	for _, m := range cfg.KeyMappings {
+		out = append(out, "t.map "+enhex(m.Name))
+		for _, km := range m.KeyMapping {
+			out = append(out, "t.keys "+enhex(km.SubHandler))
+			ks = nil
+			for k := range km.Map {
+				ks = append(ks, k)
+			}
+			sort.Strings(ks)
+			for _, k := range ks {
+				out = append(out, fmt.Sprintf("t.key %s %s", enhex(k), enhex(km.Map[k])))
+			}
+		}
+		for _, am := range m.AnalogMapping {
+			out = append(out, fmt.Sprintf("t.analog %s %s", enhex(am.SubHandler), bits(am.DefaultDeadzone)))
+			ks = nil
+			for k := range am.Map {
+				ks = append(ks, k)
+			}
+			sort.Strings(ks)
+			for _, k := range ks {
+				a := am.Map[k]
+				out = append(out, fmt.Sprintf("t.abs %s %s %s %s %s %s %d %d %s %s %s %s", enhex(k), enhex(a.Type), optInt(a.CC),
+					optInt(a.CCNegative), optInt(a.Note), optInt(a.NoteNegative), a.ChannelOffset, a.ChannelOffsetNegative,
+					optStr(a.Action), optStr(a.ActionNegative), b01(a.FlipAxis), b01(a.DeadzoneAtCenter)))
+			}
+			ks = nil
+			for k := range am.Deadzones {
+				ks = append(ks, k)
+			}
+			sort.Strings(ks)
+			for _, k := range ks {
+				out = append(out, fmt.Sprintf("t.dz %s %s", enhex(k), bits(am.Deadzones[k])))
+			}
+		}
+	}
+	out = append(out, "t.end")
+	return out
+}
+
+func ratStr(f float64) string {
+	if math.IsNaN(f) || math.IsInf(f, 0) {
+		return "nan"
+	}
+	r := new(big.Rat).SetFloat64(f)
+	return r.Num().String() + "/" + r.Denom().String()
+}
+
+func actTok(a Action) string {
+	if a == "" {
+		return "-"
+	}
+	return string(a)
+}
+
+func dumpConfig(c Config) string {
+	var acts []string
+	for code, a := range c.ActionMapping {
+		acts = append(acts, fmt.Sprintf("%d:%s", code, actTok(a)))
+	}
+	sort.Strings(acts)
+	var ex []string
+	for _, e := range c.ExitSequence {
+		ex = append(ex, strconv.Itoa(int(e)))
+	}
+	col := c.OpenRGB.Colors
+	var cols []string
+	for _, x := range []struct{ Red, Green, Blue byte }{
+		{col.White.Red, col.White.Green, col.White.Blue}, {col.Black.Red, col.Black.Green, col.Black.Blue},
+		{col.C.Red, col.C.Green, col.C.Blue}, {col.Unavailable.Red, col.Unavailable.Green, col.Unavailable.Blue},
+		{col.Other.Red, col.Other.Green, col.Other.Blue}, {col.Active.Red, col.Active.Green, col.Active.Blue},
+		{col.ActiveExternal.Red, col.ActiveExternal.Green, col.ActiveExternal.Blue}} {
+		cols = append(cols, fmt.Sprintf("%d.%d.%d", x.Red, x.Green, x.Blue))
+	}
+	var maps []string
+	for _, m := range c.KeyMappings {
+		var midi, ana, dz, dd []string
+		for sub, t := range m.Midi {
+			for code, k := range t {
+				midi = append(midi, fmt.Sprintf("%s/%d:%d/%d", enhex(sub), code, k.Note, k.ChannelOffset))
+			}
+		}
+		for sub, t := range m.Analog {
+			for code, a := range t {
+				ana = append(ana, fmt.Sprintf("%s/%d:%s/%d/%d/%d/%d/%d/%d/%s/%s/%s/%s/%s", enhex(sub), code, a.MappingType, a.CC, a.CCNeg,
+					a.Note, a.NoteNeg, a.ChannelOffset, a.ChannelOffsetNeg, actTok(a.Action), actTok(a.ActionNeg), b01(a.FlipAxis),
+					b01(a.Bidirectional), b01(a.DeadzoneAtCenter)))
+			}
+		}
+		for sub, t := range m.Deadzones {
+			for code, z := range t {
+				dz = append(dz, fmt.Sprintf("%s/%d:%s", enhex(sub), code, ratStr(z)))
+			}
+		}
+		for sub, z := range m.DefaultDeadzone {
+			dd = append(dd, fmt.Sprintf("%s:%s", enhex(sub), ratStr(z)))
+		}
+		sort.Strings(midi)
+		sort.Strings(ana)
+		sort.Strings(dz)
+		sort.Strings(dd)
+		maps = append(maps, fmt.Sprintf("%s{midi=%s;analog=%s;dz=%s;defdz=%s}", enhex(m.Name), strings.Join(midi, ","),
+			strings.Join(ana, ","), strings.Join(dz, ","), strings.Join(dd, ",")))
+	}
+	return fmt.Sprintf("ok id=%d:%d:%d:%d uniq=%s mode=%s exit=%s def=%d,%d,%d,%d,%d colors=%s actions=%s maps=%s",
+		c.ID.Bus, c.ID.Vendor, c.ID.Product, c.ID.Version, enhex(c.Uniq), c.CollisionMode, strings.Join(ex, ","),
+		c.Defaults.Octave, c.Defaults.Semitone, c.Defaults.Channel, c.Defaults.Mapping, c.Defaults.Velocity,
+		strings.Join(cols, ","), strings.Join(acts, ","), strings.Join(maps, "|"))
+}
+
+var _ = evdev.KEY_A
+
+func (p *parseState) line(toks []string) (string, bool) {
+	switch toks[0] {
+	case "raw":
+		data := []byte(unhex(toks[1]))
+		// 1. the real ParseData
+		res := ""
+		func() {
+			defer func() {
+				if e := recover(); e != nil {
+					res = "panic"
+				}
+			}()
+			c, err := ParseData(data)
+			if err != nil {
+				res = "err"
+			} else {
+				res = dumpConfig(c)
+			}
+		}()
+		// 2. the decoded structure, with the decoder set up as ParseData sets it up
+		ser := "-"
+		func() {
+			defer func() {
+				if e := recover(); e != nil {
+					ser = "decode-panic"
+				}
+			}()
+			cfg := TOMLDeviceConfig{}
+			d := toml.NewDecoder(bytes.NewReader(data))
+			d.DisallowUnknownFields()
+			if err := d.Decode(&cfg); err != nil {
+				ser = "decode-err"
+				return
+			}
+			ser = strings.Join(serialise(&cfg), " ;; ")
+		}()
+		return res + " ;;; " + ser, true
+	}
+	return "bad-op", true
+}
 
 type loadState struct{}
 
